@@ -2145,19 +2145,42 @@ def run_converter(ctx):
     compare_avgmesh(ctx, areq, achk)
 
 
+def real_code_failure(ctx, e, where):
+    """an exception that escapes a stream from INSIDE the real code on a valid input is a keyed failure, not an
+    infrastructure failure; an exception of the harness itself is re-raised"""
+    import os
+    import traceback
+
+    tb = traceback.extract_tb(e.__traceback__)
+    inner = [f for f in tb if "/armi/" in f.filename and "/harness/" not in f.filename]
+    if not inner or "/harness/" in tb[-1].filename:
+        return False
+    calls = [f for f in tb if "/harness/" in f.filename]
+    ctx.fail("real-code-raises-on-valid-input", "the real code accepts a valid assembly / mesh / call",
+             {"where": where, "seed": ctx.seed, "raised_in": f"{os.path.basename(inner[-1].filename)}:{inner[-1].name}",
+              "harness_line": (f"{os.path.basename(calls[-1].filename)}:{calls[-1].lineno}" if calls else None)},
+             observed=repr(e)[:300])
+    return True
+
+
 def run(ctx):
-    run_resample(ctx)
-    run_filter(ctx)
-    run_avg1d(ctx)
-    run_assemblies(ctx)
-    run_none_patterns(ctx)
-    run_nuclide_sets(ctx)
-    run_restate(ctx)
-    run_block_mesh(ctx)
-    run_cache_states(ctx)
-    run_repeated(ctx)
-    run_near(ctx)
-    run_converter(ctx)
+    try:
+        fixtures()
+    except common.Infra:
+        raise
+    except Exception as e:  # noqa
+        if not real_code_failure(ctx, e, "fixture preparation (loading the reference and detailedAxialExpansion test reactors)"):
+            raise
+        return
+    for fn in (run_resample, run_filter, run_avg1d, run_assemblies, run_none_patterns, run_nuclide_sets, run_restate,
+               run_block_mesh, run_cache_states, run_repeated, run_near, run_converter):
+        try:
+            fn(ctx)
+        except common.Infra:
+            raise
+        except Exception as e:  # noqa
+            if not real_code_failure(ctx, e, "stream " + fn.__name__):
+                raise
     ctx.rule = ("assembly stream: (fixture assembly type, source mesh, target mesh, profile mode) with target meshes "
                 "identical / finer / coarser / shifted / random on a 1/8 cm dyadic lattice, 'tiny' (points and cells 2^-10.."
                 "2^-22 cm beside source boundaries) and 'nearsame' (same point count, relative offsets 1e-6..1e-4), profiles "
